@@ -20,3 +20,105 @@ Definition c09_inbound_violation (fs : list face) (f : N) (n : name) : bool :=
   | Some g => negb (f_local g) && spec_localhost n
   | None => false
   end.
+
+(* ---- C01: Data is delivered exactly to the faces with a matching pending Interest.
+   The reference semantics is a flat table of pending Interests maintained from the history alone: the events, plus, for
+   each Interest, whether the forwarder took it as pending and under which upstream PIT token (that decision — drop rules,
+   cache hit — is property C02's and C07's subject, and the token is the forwarder's visible random choice). *)
+Record prec := { p_face : N; p_name : name; p_cbp : bool; p_mbf : bool; p_hint : name;
+                 p_utok : N       (* entry token this forwarder attaches upstream for this group *);
+                 p_dtok : bytes   (* PIT token the downstream face supplied *);
+                 p_exp : N        (* arrival + lifetime of the latest Interest of this face: pending at least until then *);
+                 p_expmax : N     (* the largest such value so far *) }.
+Definition pend := list prec.
+
+Definition same_group (a b : prec) : bool :=
+  name_eqb (p_name a) (p_name b) && Bool.eqb (p_cbp a) (p_cbp b) && Bool.eqb (p_mbf a) (p_mbf b) &&
+  name_eqb (p_hint a) (p_hint b) && (p_utok a =? p_utok b).
+Definition same_slot (a b : prec) : bool := (p_face a =? p_face b) && same_group a b.
+
+Fixpoint pend_upsert (sp : pend) (r : prec) : pend :=
+  match sp with
+  | [] => [r]
+  | p :: t => if same_slot p r
+              then {| p_face := p_face r; p_name := p_name r; p_cbp := p_cbp r; p_mbf := p_mbf r; p_hint := p_hint r;
+                      p_utok := p_utok r; p_dtok := p_dtok r; p_exp := p_exp r;
+                      p_expmax := N.max (p_expmax p) (p_expmax r) |} :: t
+              else p :: pend_upsert t r
+  end.
+
+(* an Interest the forwarder took as pending under upstream token utok *)
+Definition pend_interest (regs : list name) (sp : pend) (now : N) (i : interest) (utok : N) : pend :=
+  let lt := match i_life i with Some l => l | None => default_lifetime end in
+  pend_upsert sp {| p_face := i_face i; p_name := i_name i; p_cbp := i_cbp i; p_mbf := i_mbf i;
+                    p_hint := match select_hint regs (i_hints i) with Some h => h | None => [] end;
+                    p_utok := utok; p_dtok := i_tok i; p_exp := now + lt; p_expmax := now + lt |}.
+
+(* the statement's satisfaction rule: the Data echoes the token this forwarder attached (thread id and entry token), or it
+   carries no token in this forwarder's format and its name equals the Interest's name or extends it with CanBePrefix *)
+Definition sat_rec (tidv : N) (d : data) (p : prec) : bool :=
+  match data_token (d_tok d) with
+  | Some (th, tk) => (th =? tidv) && (tk =? p_utok p)
+  | None => is_prefix (p_name p) (d_name d) && (p_cbp p || (length (p_name p) =? length (d_name d))%nat)
+  end.
+
+(* a Data arrival counts if its face exists and it does not violate the /localhost scope inbound (C09) *)
+Definition data_effective (fs : list face) (d : data) : bool :=
+  match get_face fs (d_face d) with
+  | Some g => negb (negb (f_local g) && spec_localhost (d_name d))
+  | None => false
+  end.
+
+Definition pend_data (fs : list face) (tidv : N) (sp : pend) (d : data) : pend :=
+  if data_effective fs d then filter (fun p => negb (sat_rec tidv d p)) sp else sp.
+
+(* the reaper: a group may linger until the first PIT update at or after the largest lifetime recorded in it *)
+Definition gmax (sp : pend) (p : prec) : N :=
+  fold_left (fun m q => if same_group p q then N.max m (p_expmax q) else m) sp 0.
+Definition pend_tick (sp : pend) (now : N) : pend := filter (fun p => now <? gmax sp p) sp.
+
+Definition pair_eqb (a b : N * bytes) : bool := (fst a =? fst b) && bytes_eqb (snd a) (snd b).
+Fixpoint remove_one (x : N * bytes) (l : list (N * bytes)) : option (list (N * bytes)) :=
+  match l with
+  | [] => None
+  | y :: r => if pair_eqb x y then Some r
+              else match remove_one x r with Some r' => Some (y :: r') | None => None end
+  end.
+Fixpoint sub_multiset (xs pool : list (N * bytes)) : bool :=
+  match xs with
+  | [] => true
+  | x :: r => match remove_one x pool with Some pool' => sub_multiset r pool' | None => false end
+  end.
+
+Definition deliverable (fs : list face) (n : name) (f : N) : bool :=
+  match get_face fs f with
+  | Some g => f_local g || negb (spec_localhost n)
+  | None => false
+  end.
+
+Definition is_data_out (n : name) (o : out) : bool :=
+  match o_kind o with KData => name_eqb (o_name o) n | KInterest => false end.
+
+(* (a) every emission is a copy of this Data matched injectively by a pending record of that face which the Data satisfies,
+       carrying the token that face supplied;
+   (b) every satisfied record still inside its own lifetime, on another face than the arrival face, scope permitting,
+       has its emission *)
+Definition c01_data_only_pending (fs : list face) (tidv : N) (sp : pend) (d : data) (os : list out) : bool :=
+  forallb (is_data_out (d_name d)) os &&
+  sub_multiset (map (fun o => (o_face o, o_tok o)) os)
+               (if data_effective fs d then map (fun p => (p_face p, p_dtok p)) (filter (sat_rec tidv d) sp) else []).
+Definition c01_data_complete (fs : list face) (tidv now : N) (sp : pend) (d : data) (os : list out) : bool :=
+  negb (data_effective fs d) ||
+  sub_multiset (map (fun p => (p_face p, p_dtok p))
+                    (filter (fun p => sat_rec tidv d p && (now <? p_exp p) && negb (p_face p =? d_face d) &&
+                                      deliverable fs (d_name d) (p_face p)) sp))
+               (map (fun o => (o_face o, o_tok o)) os).
+
+(* (d) a reply from the cache goes to the requesting face alone (with the token of that Interest), at most once *)
+Definition c01_cs_reply_ok (i : interest) (os : list out) : bool :=
+  let ds := filter (fun o => match o_kind o with KData => true | _ => false end) os in
+  match ds with
+  | [] => true
+  | [o] => (o_face o =? i_face i) && bytes_eqb (o_tok o) (i_tok i) && is_prefix (i_name i) (o_name o)
+  | _ => false
+  end.
